@@ -272,6 +272,7 @@ type geProj struct {
 	Nodes    []geNode `json:"nodes"`
 	Prod     [][]int  `json:"prod"`
 	Meta     [][]int  `json:"meta"`
+	Meta2    [][]int  `json:"meta2"` // the leaves the APPLICATION shows (instance schema: notes, node metadata), not the saved document
 	MetaJSON string   `json:"metajson"`
 	Arts     []geArt  `json:"arts"`
 	Unknown  int      `json:"unknown"` // nodes / ports the projection could not name
@@ -301,7 +302,7 @@ func hash3(b []byte) []int {
 }
 
 func emptyProj() geProj {
-	return geProj{Nodes: []geNode{}, Prod: [][]int{}, Meta: [][]int{}, Arts: []geArt{}}
+	return geProj{Nodes: []geNode{}, Prod: [][]int{}, Meta: [][]int{}, Meta2: [][]int{}, Arts: []geArt{}}
 }
 
 func projectApp(app *generator.App) (p geProj) {
@@ -394,6 +395,22 @@ func projectApp(app *generator.App) (p geProj) {
 	}
 	mj, _ := json.Marshal(md)
 	p.MetaJSON = string(mj)
+	// the same leaves as the application itself shows them (read through NestedSyncMap.Get, not through the
+	// snapshot the saver takes): notes.n1.text and the metadata of node Node-0
+	if n1, ok := sch.Notes["n1"].(map[string]any); ok {
+		if f, isNum := n1["text"].(float64); isNum {
+			p.Meta2 = append(p.Meta2, []int{1, int(f)})
+		} else if f, isInt := n1["text"].(int); isInt {
+			p.Meta2 = append(p.Meta2, []int{1, f})
+		}
+	}
+	if n0, ok := sch.Nodes["Node-0"]; ok {
+		if f, isNum := n0.Metadata["position"].(float64); isNum {
+			p.Meta2 = append(p.Meta2, []int{2, int(f)})
+		} else if f, isInt := n0.Metadata["position"].(int); isInt {
+			p.Meta2 = append(p.Meta2, []int{2, f})
+		}
+	}
 	for pid := 1; pid <= 3; pid++ {
 		cur := any(md)
 		okPath := true
